@@ -206,6 +206,13 @@ ByteAtI(g, ps, idx, p, cx, cy, b) ==
        THEN Code(e.k, p, 0, 0, b)
        ELSE IF e.t = "octet" /\ e.p = p /\ e.cx = cx /\ e.cy = cy /\ e.b = b
        THEN e.v
+       \* the picture was made by ubuf_pic_replace: cell (i, j) of its window nw holds what cell
+       \* (i + sx, j + sy) of the window ow of the old picture held, where the two windows overlap
+       ELSE IF e.t = "copy" /\ Covers(g, e.nw, p, cx, cy) /\
+               Covers(g, e.ow, p, cx - PX0(g, e.nw, p) + e.sx[p] + PX0(g, e.ow, p),
+                                  cy - PY0(g, e.nw, p) + e.sy[p] + PY0(g, e.ow, p))
+       THEN ByteAtI(g, e.ps, Len(e.ps), p, cx - PX0(g, e.nw, p) + e.sx[p] + PX0(g, e.ow, p),
+                    cy - PY0(g, e.nw, p) + e.sy[p] + PY0(g, e.ow, p), b)
        ELSE ByteAtI(g, ps, idx - 1, p, cx, cy, b)
 \* -1 = never written
 ByteAt(g, ps, p, cx, cy, b) == ByteAtI(g, ps, Len(ps), p, cx, cy, b)
@@ -287,6 +294,36 @@ DoResize(h, q, res) ==
   /\ last' = [op |-> "resize", h |-> h, q |-> q, res |-> res,
               W |-> WinW(geo, win'[h]), H |-> win'[h].vsize]
   /\ UNCHANGED <<geo, area, view, canv, content, nextk>>
+
+\* ubuf_pic_replace(mgr, &ubuf, hskip, vskip, hsize, vsize): the crop / extension of DoResize done by COPY
+\* into a newly allocated picture of the new size (so it also works beyond the margins); the old picture is
+\* released.  Every pixel that stays visible keeps its value.
+ReplaceVerdict(g, w, q) ==
+  LET n == RNorm(g, w, q)
+  IN IF n.nh <= 0 \/ n.nv <= 0 \/ ~RGranular(g, n) THEN "refused"
+     ELSE IF \/ n.hskip >= WinW(g, w) \/ n.vskip >= w.vsize
+             \/ n.nh <= -n.hskip \/ n.nv <= -n.vskip
+          THEN "either"      \* nothing of the old picture stays visible: silent
+     ELSE "ok"
+DoReplace(h, q, res) ==
+  /\ IsBuf(h) /\ geo.kind = "pic"
+  /\ Compat(ReplaceVerdict(geo, win[h], q), res)
+  /\ IF res = "ok"
+     THEN LET n == RNorm(geo, win[h], q)
+              nw == FullWin(geo, n.nh, n.nv)
+              ev == [t |-> "copy", nw |-> nw, ow |-> win[h], ps |-> content[area[h]],
+                     sx |-> [p \in PlaneIds(geo) |-> n.hskip \div HGran(geo, p)],
+                     sy |-> [p \in PlaneIds(geo) |-> n.vskip \div VGran(geo, p)]]
+          IN /\ canv' = Append(canv, [hm |-> n.nh \div geo.mp + geo.hmpre + geo.hmapp,
+                                        v |-> n.nv + geo.vpre + geo.vapp])
+             /\ content' = Append(content, <<ev>>)
+             /\ area' = [area EXCEPT ![h] = Len(canv) + 1]
+             /\ win' = [win EXCEPT ![h] = nw]
+     ELSE UNCHANGED <<canv, content, area, win>>
+  /\ last' = [op |-> "replace", h |-> h, q |-> q, res |-> res,
+              W |-> WinW(geo, win'[h]), H |-> win'[h].vsize,
+              size |-> IF res = "ok" THEN AreaSize(geo, canv'[Len(canv')]) ELSE 0]
+  /\ UNCHANGED <<geo, view, nextk>>
 
 DoSResize(h, q, res) ==
   /\ IsBuf(h) /\ geo.kind = "sound"
